@@ -431,6 +431,36 @@ func verifyFuncBeh(prog *Program, key string, beh *Behavior) (res *FuncResult) {
 			}
 			ex.code = append(ex.code, &codeCtx{name: "iterbody", pkg: pkg, fc: fc, loopIdx: alignLoops(decl.Body, fc)})
 			ex.inlineBody("iterbody@"+ex.posString(c.lit.Pos()), lsig, c.lit.Type, c.lit.Body, nil, nil, largs, pkg, fc, false)
+			if !ex.st.dead {
+				// a second enumeration of the same sequence value, started in the state the first one left behind: the
+				// ghost cells of the contract are reset to what its preconditions say, everything else carries over, and
+				// all obligations are generated again (suffix #2). A sequence that keeps state between enumerations fails here.
+				sc2 := &specCtx{ex: ex, st: ex.st, old: ex.oldState, vars: sc.vars, stateVars: map[string]stateVar{}, pkg: pkg.Types, where: fc.Line}
+				for _, m := range fc.Modifies {
+					key, ref, ok := ex.specLvalue(sc2, m.Expr)
+					if !ok || !strings.HasPrefix(key, "$G.") {
+						continue
+					}
+					if ref == nil {
+						ex.havocKey(key)
+						continue
+					}
+					cur := ex.get(ex.st, key)
+					ex.st.env[key] = Store(cur, ref, ex.fresh("mod", elemSortOf(cur.S)))
+				}
+				sc2.st = ex.st
+				for _, c := range fc.Requires {
+					ex.assume(ex.specBool(sc2, c))
+				}
+				var largs2 []Val
+				for i := 0; i < lsig.Params().Len(); i++ {
+					p := lsig.Params().At(i)
+					v := ex.fresh("ip2."+p.Name(), sortOf(p.Type()))
+					ex.assume(And(ex.typeFact(p.Type(), v), Lt(I(0), v)))
+					largs2 = append(largs2, Val{v, p.Type()})
+				}
+				ex.inlineBody("iterbody2@"+ex.posString(c.lit.Pos()), lsig, c.lit.Type, c.lit.Body, nil, nil, largs2, pkg, fc, false)
+			}
 			ex.code = ex.code[:len(ex.code)-1]
 		} else {
 			res.Errors = append(res.Errors, key+": iterbody: the function does not return a function literal")
